@@ -575,11 +575,30 @@ impl Relations {
     pub fn wrap_and_sort(self) -> Self {
         let mut entries = self
             .entries()
+            .filter(|e| !e.is_empty())
             .map(|e| e.wrap_and_sort())
             .collect::<Vec<_>>();
-        entries.sort();
+        // equal entries (e.g. versions "1" and "0:1") in the order of their text
+        entries.sort_by(|a, b| a.cmp(b).then_with(|| a.to_string().cmp(&b.to_string())));
+        // substitution variables are kept, after the entries
+        let mut substvars = self
+            .0
+            .children()
+            .filter(|n| n.kind() == SUBSTVAR)
+            .collect::<Vec<_>>();
+        substvars.sort_by_key(|n| n.text().to_string());
         // TODO: preserve comments
-        Self::from(entries)
+        let mut builder = GreenNodeBuilder::new();
+        builder.start_node(ROOT.into());
+        for (i, node) in entries.into_iter().map(|e| e.0).chain(substvars).enumerate() {
+            if i > 0 {
+                builder.token(COMMA.into(), ",");
+                builder.token(WHITESPACE.into(), " ");
+            }
+            inject(&mut builder, node);
+        }
+        builder.finish_node();
+        Relations(SyntaxNode::new_root_mut(builder.finish()))
     }
 
     /// Iterate over the entries in this relations field
@@ -726,22 +745,18 @@ impl PartialOrd for Entry {
     fn partial_cmp(&self, other: &Self) -> Option<std::cmp::Ordering> {
         let mut rels_a = self.relations();
         let mut rels_b = other.relations();
-        while let (Some(a), Some(b)) = (rels_a.next(), rels_b.next()) {
-            match a.cmp(&b) {
-                std::cmp::Ordering::Equal => continue,
-                x => return Some(x),
+        loop {
+            match (rels_a.next(), rels_b.next()) {
+                (Some(a), Some(b)) => match a.cmp(&b) {
+                    std::cmp::Ordering::Equal => continue,
+                    x => return Some(x),
+                },
+                // a proper prefix sorts first
+                (Some(_), None) => return Some(std::cmp::Ordering::Greater),
+                (None, Some(_)) => return Some(std::cmp::Ordering::Less),
+                (None, None) => return Some(std::cmp::Ordering::Equal),
             }
         }
-
-        if rels_a.next().is_some() {
-            return Some(std::cmp::Ordering::Greater);
-        }
-
-        if rels_b.next().is_some() {
-            return Some(std::cmp::Ordering::Less);
-        }
-
-        Some(std::cmp::Ordering::Equal)
     }
 }
 
@@ -830,7 +845,7 @@ impl Entry {
             .map(|r| r.wrap_and_sort())
             .collect::<Vec<_>>();
         // TODO: preserve comments
-        relations.sort();
+        relations.sort_by(|a, b| a.cmp(b).then_with(|| a.to_string().cmp(&b.to_string())));
         Self::from(relations)
     }
 
@@ -1181,63 +1196,23 @@ impl Relation {
         builder.start_node(SyntaxKind::RELATION.into());
         builder.token(IDENT.into(), self.name().as_str());
         if let Some(archqual) = self.archqual() {
+            builder.start_node(ARCHQUAL.into());
             builder.token(COLON.into(), ":");
             builder.token(IDENT.into(), archqual.as_str());
+            builder.finish_node();
         }
         if let Some((vc, version)) = self.version() {
             builder.token(WHITESPACE.into(), " ");
-            builder.start_node(SyntaxKind::VERSION.into());
-            builder.token(L_PARENS.into(), "(");
-            builder.start_node(SyntaxKind::CONSTRAINT.into());
-            builder.token(
-                match vc {
-                    VersionConstraint::GreaterThanEqual => R_ANGLE.into(),
-                    VersionConstraint::LessThanEqual => L_ANGLE.into(),
-                    VersionConstraint::Equal => EQUAL.into(),
-                    VersionConstraint::GreaterThan => R_ANGLE.into(),
-                    VersionConstraint::LessThan => L_ANGLE.into(),
-                },
-                vc.to_string().as_str(),
-            );
-            builder.finish_node();
-            builder.token(WHITESPACE.into(), " ");
-            builder.token(IDENT.into(), version.to_string().as_str());
-            builder.token(R_PARENS.into(), ")");
-            builder.finish_node();
+            version_node(&mut builder, &vc, &version);
         }
         if let Some(architectures) = self.architectures() {
+            let architectures = architectures.collect::<Vec<_>>();
             builder.token(WHITESPACE.into(), " ");
-            builder.start_node(ARCHITECTURES.into());
-            builder.token(L_BRACKET.into(), "[");
-            for (i, arch) in architectures.enumerate() {
-                if i > 0 {
-                    builder.token(WHITESPACE.into(), " ");
-                }
-                builder.token(IDENT.into(), arch.as_str());
-            }
-            builder.token(R_BRACKET.into(), "]");
-            builder.finish_node();
+            architectures_node(&mut builder, architectures.iter().map(|s| s.as_str()));
         }
         for profiles in self.profiles() {
             builder.token(WHITESPACE.into(), " ");
-            builder.start_node(PROFILES.into());
-            builder.token(L_ANGLE.into(), "<");
-            for (i, profile) in profiles.into_iter().enumerate() {
-                if i > 0 {
-                    builder.token(WHITESPACE.into(), " ");
-                }
-                match profile {
-                    BuildProfile::Disabled(name) => {
-                        builder.token(NOT.into(), "!");
-                        builder.token(IDENT.into(), name.as_str());
-                    }
-                    BuildProfile::Enabled(name) => {
-                        builder.token(IDENT.into(), name.as_str());
-                    }
-                }
-            }
-            builder.token(R_ANGLE.into(), ">");
-            builder.finish_node();
+            profiles_node(&mut builder, &profiles);
         }
         builder.finish_node();
         Relation(SyntaxNode::new_root_mut(builder.finish()))
@@ -1755,19 +1730,37 @@ impl PartialOrd for Relation {
         let self_version = self.version();
         let other_version = other.version();
 
-        match (self_version, other_version) {
+        let version_cmp = match (self_version, other_version) {
             (Some((self_vc, self_version)), Some((other_vc, other_version))) => {
-                let vc_cmp = self_vc.cmp(&other_vc);
-                if vc_cmp != std::cmp::Ordering::Equal {
-                    return Some(vc_cmp);
-                }
-
-                Some(self_version.cmp(&other_version))
+                self_vc.cmp(&other_vc).then_with(|| self_version.cmp(&other_version))
             }
-            (Some(_), None) => Some(std::cmp::Ordering::Greater),
-            (None, Some(_)) => Some(std::cmp::Ordering::Less),
-            (None, None) => Some(std::cmp::Ordering::Equal),
+            (Some(_), None) => std::cmp::Ordering::Greater,
+            (None, Some(_)) => std::cmp::Ordering::Less,
+            (None, None) => std::cmp::Ordering::Equal,
+        };
+        if version_cmp != std::cmp::Ordering::Equal {
+            return Some(version_cmp);
         }
+
+        // then by everything else `==` looks at, so that sorting is deterministic
+        let architectures = |r: &Relation| {
+            r.architectures().map(|a| {
+                let mut a = a.collect::<Vec<_>>();
+                a.sort();
+                a
+            })
+        };
+        let profiles = |r: &Relation| {
+            r.profiles()
+                .map(|g| g.iter().map(|p| p.to_string()).collect::<Vec<_>>())
+                .collect::<Vec<_>>()
+        };
+        Some(
+            self.archqual()
+                .cmp(&other.archqual())
+                .then_with(|| architectures(self).cmp(&architectures(other)))
+                .then_with(|| profiles(self).cmp(&profiles(other))),
+        )
     }
 }
 
